@@ -1403,6 +1403,10 @@ fn pretty_scalar(n: Number) -> Markup {
 
 fn with_parens(expr: &Expression) -> Markup {
     match expr {
+        // a negative number (as produced by `x⁻¹`) reads back as a negation
+        Expression::Scalar { value, .. } if value.to_f64() < 0.0 => {
+            m::operator("(") + expr.pretty_print() + m::operator(")")
+        }
         Expression::Scalar { .. }
         | Expression::Identifier { .. }
         | Expression::UnitIdentifier { .. }
@@ -1441,8 +1445,23 @@ fn with_parens_liberal(expr: &Expression) -> Markup {
 fn pretty_print_binop(op: &BinaryOperator, lhs: &Expression, rhs: &Expression) -> Markup {
     match op {
         BinaryOperator::ConvertTo => {
-            // never needs parens, it has the lowest precedence:
-            lhs.pretty_print() + op.pretty_print() + rhs.pretty_print()
+            // Conversions have the lowest precedence of all binary operators and are
+            // left-associative: only a conditional, or a conversion on the right hand
+            // side, needs parens.
+            let add_parens_if_needed = |expr: &Expression, is_rhs: bool| match expr {
+                Expression::Condition { .. } => with_parens(expr),
+                Expression::BinaryOperator {
+                    op: BinaryOperator::ConvertTo,
+                    ..
+                }
+                | Expression::BinaryOperatorForDate {
+                    op: BinaryOperator::ConvertTo,
+                    ..
+                } if is_rhs => with_parens(expr),
+                _ => expr.pretty_print(),
+            };
+
+            add_parens_if_needed(lhs, false) + op.pretty_print() + add_parens_if_needed(rhs, true)
         }
         BinaryOperator::Mul => match (lhs, rhs) {
             (
@@ -1655,7 +1674,7 @@ impl PrettyPrint for Expression<'_> {
                     }
                 }
 
-                expr.pretty_print()
+                with_parens(expr)
                     + m::operator("(")
                     + itertools::Itertools::intersperse(
                         args.iter().map(|e: &Expression| e.pretty_print()),
@@ -1713,7 +1732,7 @@ impl PrettyPrint for Expression<'_> {
             AccessField {
                 expr, field_name, ..
             } => {
-                expr.pretty_print()
+                with_parens(expr)
                     + m::operator(".")
                     + m::identifier(field_name.to_compact_string())
             }
